@@ -7,7 +7,7 @@
    "parse (present p f) = denote f for every well-formed feed f and presentation p" is not assembled in Coq - it is what the
    engine's denote oracle decides on every generated feed.  (DESIGN §8 C01, fallback rule) *)
 From Coq Require Import List Ascii String.
-From GV Require Import Base.Prelude Base.Dec Model.Csv Proofs.CsvProofs Model.Realtime Model.Static Proofs.RealtimeProofs Proofs.StaticProofs Gen.Enums.
+From GV Require Import Base.Prelude Base.Dec Model.Csv Proofs.CsvProofs Model.Realtime Model.Static Proofs.RealtimeProofs Proofs.StaticProofs Proofs.PresentProofs Gen.Enums.
 From Coq Require Import Permutation.
 
 (* --- CSV layer: any quoting style, CRLF, byte-order mark, final newline --- *)
@@ -54,6 +54,55 @@ Print Assumptions C01_enums.
 Theorem C01_routes_one_per_row : forall ags hdr r1 r2, parse_routes ags hdr (r1 ++ r2) = parse_routes ags hdr r1 ++ parse_routes ags hdr r2.
 Proof. exact routes_keep_file_order. Qed.
 Print Assumptions C01_routes_one_per_row.
+(* ---- whole files: a file's contribution depends on the file only through, row by row, the values found under each column
+   NAME (blank and absent being the same).  Two presentations of one table - any column order, any unknown extra columns - give
+   the same routes / stops / transfers / trips / stop times / frequencies / shapes / services. ---- *)
+Theorem C01_column_order_is_same_view : forall cols cols', Permutation cols cols' -> NoDup (map fst cols) ->
+  same_view (view (map fst cols') (map snd cols')) (view (map fst cols) (map snd cols)).
+Proof. exact same_view_column_order. Qed.
+Print Assumptions C01_column_order_is_same_view.
+Theorem C01_routes_presentation : forall h h' rows rows', same_table h rows h' rows' -> forall ags,
+  has_columns h ["route_id"; "route_type"] = has_columns h' ["route_id"; "route_type"] -> parse_routes ags h rows = parse_routes ags h' rows'.
+Proof. exact routes_presentation. Qed.
+Print Assumptions C01_routes_presentation.
+Theorem C01_stops_presentation : forall pf h h' rows rows', same_table h rows h' rows' -> forall inherit,
+  has_columns h ["stop_id"] = has_columns h' ["stop_id"] -> parse_stops pf inherit h rows = parse_stops pf inherit h' rows'.
+Proof. exact stops_presentation. Qed.
+Print Assumptions C01_stops_presentation.
+Theorem C01_transfers_presentation : forall h h' rows rows', same_table h rows h' rows' -> forall stops,
+  has_columns h ["from_stop_id"; "to_stop_id"] = has_columns h' ["from_stop_id"; "to_stop_id"] -> parse_transfers stops h rows = parse_transfers stops h' rows'.
+Proof. exact transfers_presentation. Qed.
+Print Assumptions C01_transfers_presentation.
+Theorem C01_trips_presentation : forall h h' rows rows', same_table h rows h' rows' -> forall routes services shapes,
+  has_columns h ["route_id"; "service_id"; "trip_id"] = has_columns h' ["route_id"; "service_id"; "trip_id"] ->
+  parse_trips routes services shapes h rows = parse_trips routes services shapes h' rows'.
+Proof. exact trips_presentation. Qed.
+Print Assumptions C01_trips_presentation.
+Theorem C01_stop_times_presentation : forall pf h h' rows rows', same_table h rows h' rows' -> forall stops trips,
+  has_columns h ["stop_id"; "stop_sequence"; "trip_id"] = has_columns h' ["stop_id"; "stop_sequence"; "trip_id"] ->
+  parse_stop_times pf stops trips h rows = parse_stop_times pf stops trips h' rows'.
+Proof. exact stop_times_presentation. Qed.
+Print Assumptions C01_stop_times_presentation.
+Theorem C01_frequencies_presentation : forall h h' rows rows', same_table h rows h' rows' -> forall trips,
+  has_columns h ["trip_id"; "start_time"; "end_time"; "headway_secs"] = has_columns h' ["trip_id"; "start_time"; "end_time"; "headway_secs"] ->
+  parse_frequencies trips h rows = parse_frequencies trips h' rows'.
+Proof. exact frequencies_presentation. Qed.
+Print Assumptions C01_frequencies_presentation.
+Theorem C01_shapes_presentation : forall pf h h' rows rows', same_table h rows h' rows' ->
+  has_columns h ["shape_id"; "shape_pt_lat"; "shape_pt_lon"; "shape_pt_sequence"] = has_columns h' ["shape_id"; "shape_pt_lat"; "shape_pt_lon"; "shape_pt_sequence"] ->
+  parse_shapes pf h rows = parse_shapes pf h' rows'.
+Proof. exact shapes_presentation. Qed.
+Print Assumptions C01_shapes_presentation.
+Theorem C01_calendar_presentation : forall di h h' rows rows', same_table h rows h' rows' -> forall zone m,
+  has_columns h (["start_date"; "end_date"; "service_id"] ++ day_cols) = has_columns h' (["start_date"; "end_date"; "service_id"] ++ day_cols) ->
+  parse_calendar di zone m h rows = parse_calendar di zone m h' rows'.
+Proof. exact calendar_presentation. Qed.
+Print Assumptions C01_calendar_presentation.
+Theorem C01_calendar_dates_presentation : forall di h h' rows rows', same_table h rows h' rows' -> forall zone m,
+  has_columns h ["service_id"; "date"; "exception_type"] = has_columns h' ["service_id"; "date"; "exception_type"] ->
+  parse_calendar_dates di zone m h rows = parse_calendar_dates di zone m h' rows'.
+Proof. exact calendar_dates_presentation. Qed.
+Print Assumptions C01_calendar_dates_presentation.
 Example C01_example : read_all_s "a,b
 ""x,""""y"",
 " = Some [["a"; "b"]; ["x,""y"; ""]].
